@@ -5,7 +5,7 @@
 From Coq Require Import List NArith String Bool Lia Permutation.
 From V Require Import Base.Strings Base.Result Model.Registry Model.Settings Model.Subst
   Model.TypePath Model.Derives Model.Generate Model.Emit Model.Equal Model.Switches Model.Renumber
-  Proofs.GenProofs Proofs.TpMap.
+  Proofs.GenProofs Proofs.TpMap Proofs.ItemsCanonical Proofs.RenumberPerm.
 Import ListNotations.
 Open Scope string_scope. Open Scope list_scope.
 
@@ -689,3 +689,105 @@ Section EmitIds.
       rewrite enum_field_tokens_rename. reflexivity.
   Qed.
 End EmitIds.
+
+(** ** the renumbered registry *)
+Section Renumber.
+  Variable pi : N -> N.
+  Variable r : registry.
+  Variable s : settings.
+  Hypothesis Hpi : renumbering (N.of_nat (List.length r)) pi.
+
+  Let Hinj : forall i j, pi i = pi j -> i = j := proj1 Hpi.
+
+  Theorem resolve_rec_renumber fuel id is_field parents orig :
+    resolve_rec (renumber pi r) s fuel (pi id) is_field (map (rename_tpi pi) parents) orig =
+    rmap_e pi (map_ids pi) (resolve_rec r s fuel id is_field parents orig).
+  Proof. apply resolve_rec_equivariant; [exact Hinj|apply resolve_renumber; exact Hpi]. Qed.
+
+  Theorem resolve_type_path_renumber id :
+    resolve_type_path (renumber pi r) s (pi id) = rmap_e pi (map_ids pi) (resolve_type_path r s id).
+  Proof.
+    apply resolve_type_path_equivariant;
+      [exact Hinj|apply resolve_renumber; exact Hpi|apply renumber_length].
+  Qed.
+
+  Theorem create_type_ir_renumber t flat :
+    create_type_ir (renumber pi r) s (rename_ty pi t) flat =
+    rmap_e pi (option_map (rename_ir pi)) (create_type_ir r s t flat).
+  Proof.
+    apply create_type_ir_equivariant;
+      [exact Hinj|apply resolve_renumber; exact Hpi|apply renumber_length].
+  Qed.
+
+  Lemma flatten_no_recursive dr rr :
+    dr_recursive dr = [] -> flatten dr rr = Ok (mk_flat (dr_default dr) (flat_of_specific (dr_specific dr))).
+  Proof. intros H. unfold flatten. rewrite H. reflexivity. Qed.
+
+  Lemma eligible_rename t : eligible s (rename_ty pi t) = eligible s t.
+  Proof. reflexivity. Qed.
+
+  (** Both generations succeed, no recursive derives, one item-eligible entry per
+      path: the emitted modules are token-identical. *)
+  Theorem permutation_tokens_partial teq teq' m1 m2 :
+    dr_recursive (s_dreg s) = [] ->
+    unique_item_paths r s ->
+    generate r s teq = Ok m1 ->
+    generate (renumber pi r) s teq' = Ok m2 ->
+    emit_module s m1 = emit_module s m2.
+  Proof.
+    intros Hrec Huniq H1 H2.
+    unfold generate in H1, H2.
+    apply bind_ok in H1 as (u1 & _ & H1). apply bind_ok in H1 as (flat1 & Hf1 & H1).
+    apply bind_ok in H2 as (u2 & _ & H2). apply bind_ok in H2 as (flat2 & Hf2 & H2).
+    rewrite (flatten_no_recursive _ r Hrec) in Hf1.
+    rewrite (flatten_no_recursive _ (renumber pi r) Hrec) in Hf2.
+    inversion Hf1; subst flat1; clear Hf1. inversion Hf2; subst flat2; clear Hf2.
+    set (flat := mk_flat (dr_default (s_dreg s)) (flat_of_specific (dr_specific (s_dreg s)))) in *.
+    set (r' := renumber pi r) in *.
+    pose proof (unique_item_paths_renumber pi r s Hpi Huniq) as Huniq'. fold r' in Huniq'.
+    assert (S1 : items_sorted m1) by (eapply gen_loop_sorted; [apply items_sorted_nil|exact H1]).
+    assert (S2 : items_sorted m2) by (eapply gen_loop_sorted; [apply items_sorted_nil|exact H2]).
+    (* forward: an item of the first run is the renamed item of the second *)
+    assert (K : forall p id ir, items_get m1 p = Some (id, ir) ->
+                                items_get m2 p = Some (pi id, rename_ir pi ir)).
+    { intros p id ir E1.
+      destruct (gen_loop_keys r s teq flat r [] m1 p id ir H1 E1) as [Ha|(t & Hin & Hp & Hel & Hc)];
+        [discriminate Ha|].
+      assert (Hin' : In (pi id, rename_ty pi t) r').
+      { apply (in_renumber pi r _ Hpi). exists (id, t). split; [exact Hin|reflexivity]. }
+      assert (Hc' : create_type_ir r' s (rename_ty pi t) flat = Ok (Some (rename_ir pi ir))).
+      { unfold r'. rewrite create_type_ir_renumber, Hc. reflexivity. }
+      destruct (gen_loop_complete r' s teq' flat r' [] m2 H2 (pi id) (rename_ty pi t) _ Hin'
+                                  (eq_trans (eligible_rename t) Hel) Hc') as ([id2 ir2] & E2).
+      change (t_path (rename_ty pi t)) with (t_path t) in E2. rewrite Hp in E2.
+      destruct (gen_loop_keys r' s teq' flat r' [] m2 p id2 ir2 H2 E2)
+        as [Ha|(t2 & Hin2 & Hp2 & Hel2 & Hc2)]; [discriminate Ha|].
+      assert (Heq : (pi id, rename_ty pi t) = (id2, t2)).
+      { apply Huniq'; [exact Hin'|exact Hin2| | |].
+        - apply item_entry_eligible. split; [exact Hel|].
+          eapply create_type_ir_some_composite; exact Hc'.
+        - apply item_entry_eligible. split; [exact Hel2|].
+          eapply create_type_ir_some_composite; exact Hc2.
+        - cbn [snd]. change (t_path (rename_ty pi t)) with (t_path t). congruence. }
+      inversion Heq; subst id2 t2. rewrite Hc' in Hc2. inversion Hc2; subst ir2. exact E2. }
+    (* backward: every path of the second run is a path of the first *)
+    assert (K' : forall p id2 ir2, items_get m2 p = Some (id2, ir2) -> exists v, items_get m1 p = Some v).
+    { intros p id2 ir2 E2.
+      destruct (gen_loop_keys r' s teq' flat r' [] m2 p id2 ir2 H2 E2)
+        as [Ha|(t2 & Hin2 & Hp2 & Hel2 & Hc2)]; [discriminate Ha|].
+      apply (in_renumber pi r _ Hpi) in Hin2 as ([id t] & Hin & He).
+      unfold rename_entry in He. cbn [fst snd] in He. inversion He; subst id2 t2.
+      unfold r' in Hc2. rewrite create_type_ir_renumber in Hc2.
+      destruct (create_type_ir r s t flat) as [[ir|]|e|msg] eqn:Hc; try discriminate Hc2.
+      change (t_path (rename_ty pi t)) with (t_path t) in Hp2. rewrite <- Hp2.
+      eapply (gen_loop_complete r s teq flat r [] m1 H1 id t ir Hin); [|exact Hc].
+      exact Hel2. }
+    apply emit_module_ext.
+    apply (sorted_items_rel
+             (fun v1 v2 => type_ir_tokens s (snd v1) = type_ir_tokens s (snd v2)) m1 m2 S1 S2).
+    intros p. destruct (items_get m1 p) as [[id ir]|] eqn:E1.
+    - rewrite (K p id ir E1). cbn [snd]. symmetry. apply type_ir_tokens_rename.
+    - destruct (items_get m2 p) as [[id2 ir2]|] eqn:E2; [|exact I].
+      destruct (K' p id2 ir2 E2) as (v & Hv). rewrite E1 in Hv. discriminate Hv.
+  Qed.
+End Renumber.
